@@ -379,6 +379,7 @@ func BuildSidecarOutboundVirtualHosts(node *model.Proxy, push *model.PushContext
 			ProxyVersion:    node.Metadata.IstioVersion,
 			ClusterID:       string(node.Metadata.ClusterID),
 			DNSDomain:       node.DNSDomain,
+			IPMode:          node.GetIPMode(),
 			DNSCapture:      bool(node.Metadata.DNSCapture),
 			DNSAutoAllocate: bool(node.Metadata.DNSAutoAllocate),
 			AllowAny:        util.IsAllowAnyOutbound(node) || util.IsAllowAnyDynamicDNSOutbound(node),
